@@ -123,6 +123,9 @@ class CompositeEval(Evaluator):
                 return Q(a[0].r ** a[1].r.as_poly(), a[0].is_float)
             if name == "logical_not" and len(a) == 1:
                 return Q(a[0].r, powsym=("not", a[0].r))
+            if name in ("invert", "bitwise_not") and len(a) == 1:
+                # bitwise complement: equals the logical negation on booleans only (-x-1 on integers, TypeError on floats)
+                return Q(a[0].r, powsym=("bitwise-not", a[0].r))
         raise Unsupported("call %s in composite operator" % norm(node.func))
 
 
